@@ -88,8 +88,8 @@ theorem noVar_of {o : Option (Nat × Nat)} (h : ∀ v n, o = some (v, n) → n =
 theorem Uvarint_cases (data : ByteArray) (k : Nat) :
     (∃ v n, n ≠ 0 ∧ n ≤ 10 ∧ uvarint (window data k 10) = some (v, n) ∧
         ∀ i : Int, i = (k : Int) → binary_Uvarint (data.extract i.toNat data.size) = (v, (n : Int))) ∨
-    (NoVar (uvarint (window data k 10)) ∧
-        ∀ i : Int, i = (k : Int) → (binary_Uvarint (data.extract i.toNat data.size)).2 ≤ 0) := by
+    (NoVar (uvarint (window data k 10)) ∧ ∃ (v : Nat) (n : Int), n ≤ 0 ∧
+        ∀ i : Int, i = (k : Int) → binary_Uvarint (data.extract i.toNat data.size) = (v, n)) := by
   by_cases hgo : 0 < (binary_Uvarint (data.extract k data.size)).2
   · left
     have hm := Uvarint_at_conv (data := data) (k := k) (v := (binary_Uvarint (data.extract k data.size)).1)
@@ -107,19 +107,18 @@ theorem Uvarint_cases (data : ByteArray) (k : Nat) :
       rw [this] at hgo
       simp only at hgo
       omega
-    · intro i hi
+    · refine ⟨(binary_Uvarint (data.extract k data.size)).1, (binary_Uvarint (data.extract k data.size)).2, Int.not_lt.1 hgo, ?_⟩
+      intro i hi
       subst hi
       rw [Int.toNat_natCast]
-      omega
 
 /-- `binary.Varint(data[k:])` used as a length: either both sides decode `(v, n)` with `0 < n ≤ 10`, or the model
     does not decode and Go returns `n ≤ 0` or a negative value -/
 theorem Varint_cases (data : ByteArray) (k : Nat) :
     (∃ v n, n ≠ 0 ∧ n ≤ 10 ∧ varintNat (window data k 10) = some (v, n) ∧
         ∀ i : Int, i = (k : Int) → binary_Varint (data.extract i.toNat data.size) = ((v : Int), (n : Int))) ∨
-    (NoVar (varintNat (window data k 10)) ∧
-        ∀ i : Int, i = (k : Int) → (binary_Varint (data.extract i.toNat data.size)).2 ≤ 0 ∨
-          (binary_Varint (data.extract i.toNat data.size)).1 < 0) := by
+    (NoVar (varintNat (window data k 10)) ∧ ∃ v n : Int, (n ≤ 0 ∨ v < 0) ∧
+        ∀ i : Int, i = (k : Int) → binary_Varint (data.extract i.toNat data.size) = (v, n)) := by
   by_cases hgo : 0 < (binary_Varint (data.extract k data.size)).2 ∧ 0 ≤ (binary_Varint (data.extract k data.size)).1
   · left
     have hm := Varint_at_conv (data := data) (k := k) (v := (binary_Varint (data.extract k data.size)).1)
@@ -147,10 +146,10 @@ theorem Varint_cases (data : ByteArray) (k : Nat) :
       rw [this] at hgo
       simp only at hgo
       omega
-    · intro i hi
+    · refine ⟨(binary_Varint (data.extract k data.size)).1, (binary_Varint (data.extract k data.size)).2, by omega, ?_⟩
+      intro i hi
       subst hi
       rw [Int.toNat_natCast]
-      omega
 
 /-! ## `validLogRecord` -/
 
@@ -165,29 +164,32 @@ theorem trans_validLogRecord_header (data : ByteArray) (hsz : data.size < 2^63) 
   unfold headerFits
   by_cases h0 : data.size = 0
   · have h0' : (data.size : Int) = 0 := by omega
-    rw [show datafile.validLogRecord data = false by simp only [datafile.validLogRecord, h0', ↓reduceIte]]
+    rw [show datafile.validLogRecord data = false by
+      simp (disch := omega) only [datafile.validLogRecord, h0', if_pos, ↓reduceIte]]
     simp only [decodeHeader, h0, ↓reduceIte]
   have h0' : ¬ ((data.size : Int) = 0) := by omega
-  rcases Varint_cases data 1 with ⟨ks, n1, hn1, hb1, m1, g1⟩ | ⟨m1, g1⟩
-  · rcases Varint_cases data (1 + n1) with ⟨vs, n2, hn2, hb2, m2, g2⟩ | ⟨m2, g2⟩
-    · rcases Uvarint_cases data (1 + n1 + n2) with ⟨b, n3, hn3, hb3, m3, g3⟩ | ⟨m3, g3⟩
+  -- the three varints: each decodes on both sides or on neither; a failing one ends both computations
+  rcases Varint_cases data 1 with ⟨ks, n1, hn1, hb1, m1, g1⟩ | ⟨m1, w1, k1, hk1, g1⟩
+  · rcases Varint_cases data (1 + n1) with ⟨vs, n2, hn2, hb2, m2, g2⟩ | ⟨m2, w2, k2, hk2, g2⟩
+    · rcases Uvarint_cases data (1 + n1 + n2) with ⟨b, n3, hn3, hb3, m3, g3⟩ | ⟨m3, w3, k3, hk3, g3⟩
       · by_cases hk : ks ≤ data.size <;> by_cases hv : vs ≤ data.size
         all_goals simp (disch := omega) only [datafile.validLogRecord, decodeHeader, h0, h0', m1, g1, m2, g2, m3, g3, hn1, hn2, hn3,
-          i64_of_range, if_pos, if_neg, ↓reduceIte]
+          i64_of_range, if_pos, if_neg, ↓reduceIte, ite_self]
         -- what is left: the final comparison (64-bit wrap-around included) against the model's test on naturals
-        all_goals simp only [i64, Bool.false_eq, decide_eq_false_iff_not]
+        all_goals try split
+        all_goals try simp only [i64, Bool.false_eq, Bool.true_eq, decide_eq_false_iff_not, decide_eq_true_eq, Decidable.not_not] at *
         all_goals first
           | omega
           | (refine decide_eq_decide.2 ?_; omega)
       · rcases m3 with m3 | ⟨v, m3⟩
         all_goals simp (disch := omega) only [datafile.validLogRecord, decodeHeader, h0, h0', m1, g1, m2, g2, m3, g3, hn1, hn2,
           i64_of_range, if_pos, if_neg, ↓reduceIte, ite_self]
-    · rcases m2 with m2 | ⟨v, m2⟩
+    · rcases m2 with m2 | ⟨v, m2⟩ <;> rcases hk2 with hk2 | hk2
       all_goals simp (disch := omega) only [datafile.validLogRecord, decodeHeader, h0, h0', m1, g1, m2, g2, hn1,
-          i64_of_range, if_pos, if_neg, ↓reduceIte, ite_self, or_true, true_or]
-  · rcases m1 with m1 | ⟨v, m1⟩
-    · simp (disch := omega) only [datafile.validLogRecord, decodeHeader, h0, h0', m1, g1, ↓reduceIte, ite_self, or_true, true_or]
-    · simp (disch := omega) only [datafile.validLogRecord, decodeHeader, h0, h0', m1, g1, ↓reduceIte, ite_self, or_true, true_or]
+          i64_of_range, if_pos, if_neg, ↓reduceIte, ite_self]
+  · rcases m1 with m1 | ⟨v, m1⟩ <;> rcases hk1 with hk1 | hk1
+    all_goals simp (disch := omega) only [datafile.validLogRecord, decodeHeader, h0, h0', m1, g1,
+      i64_of_range, if_pos, if_neg, ↓reduceIte, ite_self]
 
 theorem headerFits_eq_decodeRecord (data : ByteArray) : headerFits data = (decodeRecord data).isSome := by
   unfold headerFits decodeRecord
@@ -237,10 +239,10 @@ example : datafile.validLogRecord ByteArray.empty = false := by decide
     the fuel of the counted loop suffices (`some`).  No range hypothesis: the index stays below 41. -/
 theorem trans_validHintRecord_eq (buf : ByteArray) :
     datafile.validHintRecord buf = some (decodeHint buf).isSome := by
-  rcases Uvarint_cases buf 0 with ⟨v1, n1, hn1, hb1, m1, g1⟩ | ⟨m1, g1⟩
-  · rcases Uvarint_cases buf n1 with ⟨v2, n2, hn2, hb2, m2, g2⟩ | ⟨m2, g2⟩
-    · rcases Uvarint_cases buf (n1 + n2) with ⟨v3, n3, hn3, hb3, m3, g3⟩ | ⟨m3, g3⟩
-      · rcases Uvarint_cases buf (n1 + n2 + n3) with ⟨v4, n4, hn4, hb4, m4, g4⟩ | ⟨m4, g4⟩
+  rcases Uvarint_cases buf 0 with ⟨v1, n1, hn1, hb1, m1, g1⟩ | ⟨m1, w1, k1, hk1, g1⟩
+  · rcases Uvarint_cases buf n1 with ⟨v2, n2, hn2, hb2, m2, g2⟩ | ⟨m2, w2, k2, hk2, g2⟩
+    · rcases Uvarint_cases buf (n1 + n2) with ⟨v3, n3, hn3, hb3, m3, g3⟩ | ⟨m3, w3, k3, hk3, g3⟩
+      · rcases Uvarint_cases buf (n1 + n2 + n3) with ⟨v4, n4, hn4, hb4, m4, g4⟩ | ⟨m4, w4, k4, hk4, g4⟩
         · simp (disch := omega) only [datafile.validHintRecord, datafile.validHintRecord.loop0, datafile.validHintRecord.body0,
             Ctl.step, Ctl.after, decodeHint, m1, g1, m2, g2, m3, g3, m4, g4, hn1, hn2, hn3, hn4,
             i64_of_range, if_pos, if_neg, ↓reduceIte, Option.isSome]
